@@ -49,7 +49,7 @@ def select(prop, tier):
     for name, h in sorted(hs.items()):
         for pre in cfg["prefixes"]:
             if name.startswith(pre):
-                thorough_only = name[len(pre):].startswith("t_")
+                thorough_only = re.match(r"c\d\d_t_", name) is not None
                 if thorough_only and tier != "thorough":
                     continue
                 sel.append(h)
